@@ -13,9 +13,10 @@ HELPERS = ["all", "any", "count", "count_unique", "first", "last", "nth", "min",
            "std", "var", "sum"]
 DEFAULT_DROP = {"count": False, "count_unique": False, "first": False, "last": False, "nth": False, "min": True, "max": True,
                 "mode": True, "mean": True, "median": True, "quantile": True, "std": True, "var": True, "sum": True}
-KINDS = {"all": "fib", "any": "fib", "count": "fibTD", "count_unique": "fibTD", "first": "fibTD", "last": "fibTD", "nth": "fibTD",
-         "min": "fibTD", "max": "fibTD", "mode": "fibTD", "mean": "fi", "median": "fi", "quantile": "fi", "std": "fi", "var": "fi",
-         "sum": "fib"}
+_TD = ["f", "i", "b", "T", "D", "td"]
+KINDS = {"all": list("fib"), "any": list("fib"), "count": _TD, "count_unique": _TD, "first": _TD, "last": _TD, "nth": _TD,
+         "min": _TD, "max": _TD, "mode": _TD, "mean": list("fi"), "median": list("fi"), "quantile": list("fi"), "std": list("fi"), "var": list("fi"),
+         "sum": list("fib")}
 LAYOUTS = {0: [[]], 1: [[0]], 2: [[0, 0], [0, 1], [1, 0]], 3: [[0, 0, 0], [0, 1, 0], [1, 0, 0], [0, 1, 1], [2, 0, 1]]}
 
 def ite_cell(c, a, b, kind):
@@ -76,7 +77,7 @@ def oracle(helper, cells, kind, args):
                 better = val_lt(c, val, kind) if helper == "min" else val_lt(val, c, kind)
                 val = ite_cell(z3.And(keep[i], z3.Or(z3.Not(have), better)), c, val, kind)
                 have = z3.Or(have, keep[i])
-            if kind in ("f", "D", "us", "s"):
+            if kind in ("f", "D", "us", "s", "td"):
                 poisoned = z3.Or(poisoned, z3.And(keep[i], nas[i]))     # a missing value propagates when not dropped
         if val is None: return T(True), None, kind
         return z3.Or(z3.Not(have), poisoned, isna(val, kind) if kind in ("T", "U") else T(False)), val, kind
@@ -180,6 +181,7 @@ def scalar_kind(x):
     if isinstance(x, SymStr): return x.c, "T"
     if isinstance(x, str): return x, "T"
     if isinstance(x, SymDT): return x.e, "M"
+    if isinstance(x, symx.SymTD): return x.e, "M"
     return x, "O"
 
 class Helper(Harness):
@@ -203,7 +205,7 @@ class Helper(Harness):
         if lay is not None: inp["g"] = Arr("int64", [BV(v) for v in lay])
         inp["drop_na"] = choice("drop_na", [None, True, False]) if h not in ("all", "any") else None
         inp["ddof"] = choice("ddof", [None, 1]) if h in ("std", "var") else None
-        if h in ("mode", "count_unique") and k in ("f", "D", "us") and inp["drop_na"] in ((None, False) if h == "count_unique" else (False,)):
+        if h in ("mode", "count_unique") and k in ("f", "D", "us", "td") and inp["drop_na"] in ((None, False) if h == "count_unique" else (False,)):
             for c in inp["x"].cells: ctx.assume(z3.Not(isna(c, k)))
             ctx.assumptions.append("mode / count_unique with missing values NOT dropped: inputs without NaN/NaT (the statement does not say "
                                    "whether two missing values count as one value; the existing test-suite pins 'each NaN is its own value')")
@@ -252,7 +254,7 @@ def harnesses(tier):
     q = tier == "quick"
     for h in HELPERS:
         kinds = KINDS[h]
-        for k in (kinds if not q else kinds[:1] + (kinds[3:4] if h in ("min", "mode", "count_unique", "nth") else "")):
+        for k in (kinds if not q else kinds[:1] + (kinds[3:4] if h in ("min", "mode", "count_unique", "nth") else []) + (["td"] if h in ("min", "count", "first") else [])):
             kk = {"D": "D"}.get(k, k)
             for form in ("vector", "group"):
                 hs.append(Helper(h, kk, form, 3 if (q or h in ("mode", "nth")) else 3))
